@@ -8,9 +8,9 @@ func init() {
 }
 
 var aggByType = map[string][]FnRef{
-	"int":    {{K: "builtin", Sym: "sum"}, {K: "builtin", Sym: "min"}, {K: "builtin", Sym: "max"}, {K: "builtin", Sym: "count"}, {K: "agg", Sym: "firstAggI"}, {K: "agg", Sym: "lastAggI"}, {K: "agg", Sym: "altAggI"}},
-	"float":  {{K: "builtin", Sym: "count"}, {K: "agg", Sym: "firstAggF"}, {K: "agg", Sym: "lastAggF"}, {K: "builtin", Sym: "max"}, {K: "builtin", Sym: "min"}, {K: "builtin", Sym: "sum"}, {K: "builtin", Sym: "avg"}},
-	"bool":   {{K: "builtin", Sym: "majority"}, {K: "builtin", Sym: "count"}, {K: "agg", Sym: "firstAggB"}, {K: "agg", Sym: "lastAggB"}},
+	"int":    {{K: "builtin", Sym: "sum"}, {K: "builtin", Sym: "min"}, {K: "builtin", Sym: "max"}, {K: "builtin", Sym: "count"}, {K: "agg", Sym: "firstAggI"}, {K: "agg", Sym: "lastAggI"}, {K: "agg", Sym: "altAggI"}, {K: "agg", Sym: "lenAggI"}, {K: "agg", Sym: "spanAggI"}},
+	"float":  {{K: "builtin", Sym: "count"}, {K: "agg", Sym: "firstAggF"}, {K: "agg", Sym: "lastAggF"}, {K: "builtin", Sym: "max"}, {K: "builtin", Sym: "min"}, {K: "builtin", Sym: "sum"}, {K: "builtin", Sym: "avg"}, {K: "agg", Sym: "digAggF"}},
+	"bool":   {{K: "builtin", Sym: "majority"}, {K: "builtin", Sym: "count"}, {K: "agg", Sym: "firstAggB"}, {K: "agg", Sym: "lastAggB"}, {K: "agg", Sym: "noneAggB"}},
 	"string": {{K: "agg", Sym: "joinAggS"}, {K: "agg", Sym: "firstAggS"}, {K: "builtin", Sym: "count"}},
 	"enum":   {{K: "agg", Sym: "joinAggS"}, {K: "agg", Sym: "firstAggS"}, {K: "builtin", Sym: "count"}},
 }
@@ -100,6 +100,7 @@ func genC04(g *Gen) {
 			g.do(Step{Op: "GroupBy", Recv: f, Cols: bsList(k), Null: true})
 			gid := len(g.x.groupers) - 1
 			g.do(Step{Op: "Aggregate", Recv: gid, Aggs: []Agg{{Fn: FnRef{K: "builtin", Sym: "sum"}, Col: toBS("I")}, {Fn: FnRef{K: "agg", Sym: "altAggI"}, Col: toBS("P")},
+				{Fn: FnRef{K: "agg", Sym: "lenAggI"}, Col: toBS("I"), As: toBS("len")}, {Fn: FnRef{K: "agg", Sym: "digAggF"}, Col: toBS("F"), As: toBS("dig")}, {Fn: FnRef{K: "agg", Sym: "noneAggB"}, Col: toBS("B"), As: toBS("none")},
 				{Fn: FnRef{K: "agg", Sym: "firstAggF"}, Col: toBS("F")}, {Fn: FnRef{K: "agg", Sym: "lastAggB"}, Col: toBS("B")}}})
 			g.do(Step{Op: "QFrames", Recv: gid})
 		}
